@@ -160,9 +160,9 @@ def families(eng, tier, seed):
         fams.append(describe_restrict_family("restrict-describe-%s" % n, r, roots))
     for n, r in C.items():
         if n in SKIP: continue
-        if tier == "quick" and len(r) > 24: continue
+        if tier == "quick" and len(r) > 45: continue
         multi = len({tuple(t["path"]) for t in r if t["path"]}) < sum(1 for t in r if t["path"])
-        dd = n in ("versions", "assoc_skip", "assoc_noskip", "assoc_same")
+        dd = n in ("versions", "assoc_skip", "assoc_noskip", "assoc_same", "assoc_twins")
         reg = strip_segment(r, ("v1", "v2")) if n == "versions" else r
         ps = perms_for(len(reg), tier, rnd)
         if ps: fams.append(perm_family("perm-%s" % n, reg, ps, dd))
